@@ -34,6 +34,8 @@ var times = []timeSpec{
 	{"today00:00:01.000", func(d time.Time) time.Time { return d.Add(1 * time.Second) }},
 	{"yesterday23:59:59.999", func(d time.Time) time.Time { return d.Add(-1 * time.Millisecond) }},
 	{"40daysago12:00:00.000", func(d time.Time) time.Time { return d.AddDate(0, 0, -40).Add(12 * time.Hour) }},
+	{"45daysago12:00:00.000", func(d time.Time) time.Time { return d.AddDate(0, 0, -45).Add(12 * time.Hour) }},
+	{"10daysago12:00:00.000", func(d time.Time) time.Time { return d.AddDate(0, 0, -10).Add(12 * time.Hour) }},
 }
 
 const (
@@ -43,6 +45,8 @@ const (
 	tT3
 	tY
 	tOld
+	tOld2
+	tMid
 )
 
 func timeIndex(label string) int {
